@@ -224,12 +224,16 @@ CHECKS = {
                  "Transaction/receipt root through the hook wrappers: swap of two positions, drop, add, and single-field "
                  "perturbation of every hash-covered field must change the root. Non-trivial = |W| >= 3 storage keys over >= 2 "
                  "accounts with a delete or an overwrite with the same value (state), >= 3 transactions (roots); distinct = "
-                 "hash of base+W / of the transaction hashes."),
+                 "hash of base+W / of the transaction hashes. Executor level (TestC10Exec): a node that runs a generated history "
+                 "(full grammar weighted towards IBTPs with timeouts and one-to-many episodes) through and a node that executes the "
+                 "same blocks and is restarted after every block must have the same state/tx/receipt root at every height and the "
+                 "same state store at the end: a write a block makes after its root was taken is carried into the next block by the "
+                 "first and lost by the second. Non-trivial there = >= 1 accepted IBTP in >= 3 blocks."),
         "assumptions": ["only hash-covered fields are perturbed (tx: From, To, Timestamp, Payload, IBTP, Nonce, Amount, Typ, Signature; receipt: Status, Ret, Events, TxHash, Version)",
                         "a list containing the same transaction twice is outside the domain (the Merkle library pads odd levels with the last leaf)",
                         "nil and empty values are the same value"],
-        "quick": [T("TestC10State", 6, 250, steps=30), T("TestC10Roots", 2, 3000, steps=30)],
-        "thorough": [T("TestC10State", 8, 8000, steps=30, timeout=3000), T("TestC10Roots", 4, 100000, steps=30, timeout=3000), F("FuzzC10State", "240s")],
+        "quick": [T("TestC10State", 6, 250, steps=30), T("TestC10Roots", 2, 3000, steps=30), T("TestC10Exec", 4, 40, steps=30)],
+        "thorough": [T("TestC10State", 8, 8000, steps=30, timeout=3000), T("TestC10Roots", 4, 100000, steps=30, timeout=3000), T("TestC10Exec", 8, 1500, steps=30, timeout=3000), F("FuzzC10State", "240s")],
     },
     "C11": {
         "level": "fault_enumeration",
